@@ -108,7 +108,7 @@ func c02(c *Ctx) {
 	// the publish branch is taken whenever the guard holds: the only conditions between the quorum If and the first sink
 	c02noSkip(c, a, sinks)
 	c02loopback(c, a)
-	c02bodyCopy(c, a)
+	c02bodyCopy(c, a, "C02.body-copy")
 	c02governance(c, a)
 }
 
@@ -326,7 +326,7 @@ func c02loopback(c *Ctx, a *procAnchors) {
 }
 
 // c02bodyCopy: exhaustive field tables.
-func c02bodyCopy(c *Ctx, a *procAnchors) {
+func c02bodyCopy(c *Ctx, a *procAnchors, rule string) {
 	p, R := a.p, c.R
 	vaaT := must(p.Named(pkgVAA, "VAA"), "vaa.VAA").Underlying().(*types.Struct)
 	var fields []string
@@ -341,7 +341,7 @@ func c02bodyCopy(c *Ctx, a *procAnchors) {
 		}
 		al, ok := s.Instr.(ssa.CallInstruction).Common().Args[1].(*ssa.Alloc)
 		if !ok {
-			R.Fail("C02.body-copy", "C02.body-copy/handleObservation", c.sitePos(p, s), "published VAA", "undecided: not a local literal")
+			R.Fail(rule, rule+"/handleObservation", c.sitePos(p, s), "published VAA", "undecided: not a local literal")
 			continue
 		}
 		vals, cnt := allocStores(al)
@@ -368,7 +368,7 @@ func c02bodyCopy(c *Ctx, a *procAnchors) {
 			bad = append(bad, "source is not entry.ourVAA: "+facts.Term(src))
 		}
 		sort.Strings(bad)
-		R.Check("C02.body-copy", "C02.body-copy/handleObservation/published-literal", c.sitePos(p, s), fmt.Sprintf("published VAA copies all %d fields of vaa.VAA except Signatures from entry.ourVAA", len(fields)-1), len(bad) == 0, strings.Join(bad, "; "))
+		R.Check(rule, rule+"/handleObservation/published-literal", c.sitePos(p, s), fmt.Sprintf("published VAA copies all %d fields of vaa.VAA except Signatures from entry.ourVAA", len(fields)-1), len(bad) == 0, strings.Join(bad, "; "))
 	}
 	// (2) handleMessage literal
 	msgTable := map[string]string{"Timestamp": "k.Timestamp", "Nonce": "k.Nonce", "EmitterChain": "k.EmitterChain", "TargetChain": "k.TargetChain",
@@ -380,7 +380,7 @@ func c02bodyCopy(c *Ctx, a *procAnchors) {
 		}
 		al, ok := s.Instr.(ssa.CallInstruction).Common().Args[1].(*ssa.Alloc)
 		if !ok {
-			R.Fail("C02.body-copy", "C02.body-copy/handleMessage", c.sitePos(p, s), "observed VAA", "undecided: not a local literal")
+			R.Fail(rule, rule+"/handleMessage", c.sitePos(p, s), "observed VAA", "undecided: not a local literal")
 			continue
 		}
 		vals, cnt := allocStores(al)
@@ -417,7 +417,7 @@ func c02bodyCopy(c *Ctx, a *procAnchors) {
 		if !sameV {
 			bad = append(bad, "the digest signed is not SigningMsg() of the VAA handed to broadcastSignature")
 		}
-		R.Check("C02.body-copy", "C02.body-copy/handleMessage/observed-literal", c.sitePos(p, s), "ourVAA is built field-for-field from the chain message (exhaustive over vaa.VAA fields)", len(bad) == 0, strings.Join(bad, "; "))
+		R.Check(rule, rule+"/handleMessage/observed-literal", c.sitePos(p, s), "ourVAA is built field-for-field from the chain message (exhaustive over vaa.VAA fields)", len(bad) == 0, strings.Join(bad, "; "))
 		R.Sample(map[string]any{"handleMessage_VAA_literal": termMap(vals)})
 	}
 }
